@@ -296,7 +296,6 @@ type RunResult struct {
 // the bubble's root goroutine.
 func (e *Engine) Run(done func() bool, maxSteps uint64) RunResult {
 	e.Activate()
-	defer e.Stop()
 	idleSim := time.Duration(0)
 	for {
 		synctest.Wait()
